@@ -119,8 +119,11 @@ def phase_cycle(args):
 def phase_interleave(args):
     """(ii) k destinations positioned shortly before the wrap by real sends, then BFS over the
     joint state space of <= n further sends each (+ empty sends), every order of sends"""
-    seed, ndest, nsend = args
+    seed, ndest, nsend = args[:3]
     dests = [None, P1, P2, P3][:ndest]
+    if len(args) > 3 and args[3] == "v6scope":
+        # one link-local host and port reached through two interfaces / with another flow label: three destinations
+        dests = [("fe80::1", 30490, 0, 2), ("fe80::1", 30490, 0, 3), ("fe80::1", 30490, 7, 2)][:ndest]
     loop = VLoop().install()
     viols = []
     try:
@@ -316,7 +319,7 @@ def _run(job):
 
 def check(ctx):
     jobs = [("cycle", (ctx.seed, 20)), ("interleave", (ctx.seed, 3, 6)), ("notify", (ctx.seed, 8200)),
-            ("sendrecv", (ctx.seed, ctx.pick(4, 6)))]
+            ("sendrecv", (ctx.seed, ctx.pick(4, 6))), ("interleave", (ctx.seed, 3, 4, "v6scope"))]
     if ctx.thorough:
         jobs += [("interleave", (ctx.seed, 4, 8)), ("interleave", (ctx.seed + 1, 2, 12)),
                  ("notify", (ctx.seed, 17000))]
